@@ -340,6 +340,34 @@ static void case_d17_witness(Rng& rng, uint64_t index)
 	judge_constant(C, o, true);
 }
 
+// fixed requests that made Vegas leave through "The integral is NaN" before fixes D29 / D31: tiny and zero constants in the stratified mode
+static void case_tiny_scale_witness(Rng& rng, uint64_t index)
+{
+	(void) rng;
+	static const int dims[4]	= {5, 6, 3, 4};
+	static const double cs[4]	= {-2.4e-156, 1e-250, 1e-170, 0.0};
+	static const int nc[4]		= {12500, 10000, 10000, 10000};
+	Call C;
+	C.R.dim = dims[index % 4];
+	C.R.lo.assign(C.R.dim, 0.0);
+	C.R.w.assign(C.R.dim, index % 8 < 4 ? 1.0 : 0.75);
+	C.F		 = Integrand();
+	C.F.c	 = cs[index % 4];
+	C.F.mean = C.F.c, C.F.m2 = (ld) C.F.c * C.F.c;
+	C.F.p.assign(C.R.dim, 0), C.F.q.assign(C.R.dim, 0), C.F.r.assign(C.R.dim, 0);
+	C.method = 1;
+	C.ncall	 = nc[index % 4];
+	C.seed	 = 4242u + (unsigned) index;
+	set_params(call_json(C).i("recorded_witness", (long long) index));
+	hash_param_u(index);
+	mark_nontrivial();
+	Obs o = run_call(C);
+	judge_inside(C, o);
+	ld exact = C.R.volume() * (ld) C.F.c;
+	double err = C.F.c == 0.0 ? std::fabs(o.result) : (double) (fabsl((ld) o.result - exact) / fabsl(exact));
+	judge("Vegas-integrates-zero-and-tiny-constants", std::isfinite(o.result) ? err : 1e300, C.F.c == 0.0 ? 0.0 : 1e-9, [&] { return J().d("result", o.result).d("exact", (double) exact); });
+}
+
 // ------------------------------------------------------------------------------------------------------------------
 // history independence
 static std::string obs_blob(const Obs& o)
@@ -495,6 +523,7 @@ static void case_frontend(Rng& rng, uint64_t index)
 static void setup()
 {
 	add_generator("d17_witnesses", 8, case_d17_witness);
+	add_generator("vegas_tiny_scale_witnesses", 8, case_tiny_scale_witness);
 	add_generator("smooth_integrands", ctx().count(1350, 54000), case_accuracy, 900.0);
 	add_generator("constants", ctx().count(900, 36000), case_constant, 900.0);
 	add_generator("history_pairs", ctx().count(750, 30000), case_history, 1200.0);
